@@ -1,6 +1,6 @@
 """Internet Relay Chat message"""
 
-from .utils import parsemsg
+from .utils import joinprefix, parsemsg
 
 
 class Error(Exception):
@@ -20,7 +20,11 @@ class Message:
     def _check_args(self):
         if any(type(arg)(' ') in arg in arg for arg in self.args[:-1] if isinstance(arg, str)):
             raise Error('Space can only appear in the very last arg')
+        if any(arg == '' or arg.startswith(':') for arg in self.args[:-1] if isinstance(arg, str)):
+            raise Error('Only the very last arg can be empty or start with a colon')
         fields = [str(self.command)] + ([self.prefix] if self.prefix is not None else [])
+        if any(field == '' or field.startswith(':') or ' ' in field for field in fields):
+            raise Error('Command and prefix must be non-empty words')
         if any(c in arg for arg in fields + self.args if isinstance(arg, str) for c in '\r\n'):
             raise Error('No newline allowed')
 
@@ -30,8 +34,9 @@ class Message:
             raise Error('Message must not be longer than 512 characters')
 
         prefix, command, args = parsemsg(s)
+        kwargs = {'prefix': joinprefix(*prefix) if prefix[1] is not None else prefix[0]} if prefix[0] is not None else {}
 
-        return Message(command, *args, prefix=prefix)
+        return Message(command, *args, **kwargs)
 
     def __bytes__(self):
         return str(self).encode(self.encoding)
@@ -40,7 +45,7 @@ class Message:
         self._check_args()
         args = self.args[:]
 
-        if args and ' ' in args[-1] and not args[-1].startswith(':'):
+        if args and (args[-1] == '' or ' ' in args[-1]) and not args[-1].startswith(':'):
             args[-1] = f':{args[-1]}'
 
         return '{prefix}{command} {args}\r\n'.format(
